@@ -231,6 +231,10 @@ def py_equal(a: Sym, b: Sym, st: State):
         s, v = (a, b) if a.kind == "seq" else (b, a)
         if elem_spec(s).kind in ("str", "int", "bool", "prim"):
             return Q.Eq(unS(v.t), s.t)
+    if (a.kind == "int" and b.kind == "val") or (b.kind == "int" and a.kind == "val"):
+        i, x = (a, b) if a.kind == "int" else (b, a)
+        # int == object: true exactly for int-like objects (int, bool) with that numeric value (floats are not modelled)
+        return z3.And(isa(x.t, "int"), unI(x.t) == i.t)
     ta, tb = box(a, st), box(b, st)
     if is_prim(a) or is_prim(b):
         return ta == tb
